@@ -31,6 +31,8 @@ def main(tier):
                              behaviours=sel, all_bits=(tier == "thorough"), flip_stride=1))
             k += 1
     jobs.append(dict(par=dict(stack="enc", seed=seed() + 151), d12=True))
+    # > 512 chunks: swaps at distances 1, 2, 255, 256, 257, 512 (a chunk counter truncated to a byte would collide)
+    jobs.append(dict(par=dict(stack="enc", seed=seed() + 152), stride_swaps=20 * (600 if tier == "quick" else 66000)))
     wd = workdir("c03")
     build("s20")
 
